@@ -323,3 +323,6 @@ for _p in ("C15", "C01", "C18"):
     H(_p, "svg", "VxH_C15_svg_templates", reach=["resolved"], bounds="three gradient definitions, href of each one of {none, #g0, #g1, #g2} (all 64 reference graphs, cycles included), visiting order of the definitions map a solver-chosen permutation in two independent runs", quick={"maxsteps": 80000000, "shards": 6})
 H("C14", "svg", "VxH_C14_svg_dashes", mode="real", nonfinite_confirm=True, reach=["resolved", "pattern"], bounds="stroke-dasharray of 1..2 (thorough 3) px lengths and a px dash offset, all unbounded symbolic reals; paths with a float division by zero are decided by running their solver model natively")
 H("C15", "text/hyphen", "VxH_C15_hyphen_shared", reach=["hyphenated", "has-break"], bounds="a word of 3..4 (thorough 5) symbolic ASCII letters, lower or upper case, against a hand-built dictionary with two non-standard (Hungarian style) and two plain patterns; two Hyphener values sharing the dictionary data", quick={"shards": 4})
+H("C11", "html/layout", "VxH_C11_lines", mode="real", reach=["laid-out", "wrapped", "preserved-line-feed"], bounds="one paragraph of 3..5 words (plain, with a preserved line feed under pre-line, with a padded span under normal and pre-line, nowrap; thorough: rtl) x text-align left/right/center x container width a symbolic real in [10, 200] px; font model: every rune a 10px em square, breaks after spaces only (text.VxAhem stands in for the Pango / go-text engines)", quick={"maxsteps": 200000000, "shards": 6})
+for _p in ("C12", "C02"):
+    H(_p, "html/layout", "VxH_C12_paragraph", mode="real", reach=["laid-out", "paragraph-split", "conforming-break-exists"], bounds="one paragraph of 3..5 (thorough 6) one-word lines of 10px, orphans and widows in 1..3, page height a symbolic real in [15, 75] px; font model text.VxAhem", quick={"maxsteps": 200000000, "shards": 6})
